@@ -96,8 +96,10 @@ def work_batch(pid: str, start: int, count: int, seed: int, tier: str, want_dige
         try:
             traces = []
             for tape, o in unit_runs(mod, index, seed, tier):
-                s["evaluations"] += 1
+                s["evaluations"] += o.evals
                 s["sim_time"] += o.sim_time
+                for c_ in o.cases:
+                    s["cases"].add(int(c_, 16))
                 for k, v in o.counters.items():
                     s["counters"][k] = s["counters"].get(k, 0) + v
                 if o.case is not None:
@@ -114,7 +116,7 @@ def work_batch(pid: str, start: int, count: int, seed: int, tier: str, want_dige
                         })
                     else:
                         s["counters"]["violations_not_kept"] = s["counters"].get("violations_not_kept", 0) + 1
-                elif len(s["samples"]) < 2 and o.case is not None and o.decoded:
+                elif len(s["samples"]) < 2 and (o.case is not None or o.cases) and o.decoded:
                     s["samples"].append({"index": index, "tape": tape.to_json(), **o.decoded})
             s["units"] += 1
             if want_digests:
@@ -167,7 +169,8 @@ def minimise_job(pid: str, viol: dict) -> dict:
     if o0.sig is None or list(o0.sig) != list(viol["sig"]):
         return {"ok": False, "why": "violation did not reproduce in-process before minimisation",
                 "got": list(o0.sig) if o0.sig else None}
-    streams, runs = minimise(runner, viol["tape"]["streams"], tuple(viol["sig"]), o0.known)
+    streams, runs = minimise(runner, viol["tape"]["streams"], tuple(viol["sig"]), o0.known,
+                             **getattr(mod, "MINIMISE", {}))
     o = runner(Tape(streams=streams))
     return {"ok": True, "streams": streams, "runs": runs, "sig": list(o.sig), "detail": o.detail,
             "decoded": o.decoded, "known": o.known}
